@@ -2618,6 +2618,15 @@ def rule_raw_format(repo, col, rels=(TABLE,)):
                 continue
             n += 1
             role = 'raw-%s@%d' % (kind, n)
+            has_shape = any(k.arg == 'shape' for k in c.keywords) or \
+                len(c.args) > 1
+            col.check(has_shape, rule, rel, q, 'raw-shape@%d' % n, c,
+                      'the shape is given',
+                      '`%s` leaves the shape to scipy, which takes the '
+                      'highest stored index for the width: trailing '
+                      'vectors without stored values are lost (or the '
+                      'construction fails for an all-zero matrix)'
+                      % unparse(c, 60))
             reads, uniq = [], set()
             for r in _feeding_raw_reads(fn, t.elts[1]) + \
                     _feeding_raw_reads(fn, t.elts[2]):
@@ -3375,3 +3384,217 @@ def rule_id_set_raw(repo, col):
                       'non-text ids are never kept' % unparse(s, 70))
     col.soft(n >= 1, rule, TABLE, q, 'instances', fn,
              '%d selections' % n, 'by-id selection set not found')
+
+
+# ===========================================================================
+# tenth (half) round of seeded changes
+# ===========================================================================
+RULE_TEXT.update({
+    'SB-KERNELINPUT': 'Table.subsample hands the kernel the stored counts '
+                      'as they are: between taking the matrix and calling '
+                      'the kernel nothing rescales, clips or otherwise '
+                      'rewrites its values (only the index order may be '
+                      'normalised).',
+    'AG-CLISAME': 'a command that prints a result or writes it to a file '
+                  'writes the same text either way.',
+    'OR-ORIENTFIRST': 'summarize-table computes its per-vector statistics '
+                      'after the table has been oriented for --observations.',
+    'TA-WRITEASIS': 'biom convert writes the text the table produced as it '
+                    'is (no strip / rstrip: a trailing tab is an empty last '
+                    'field).',
+    'TA-SPARSEPOS': 'the k-th stored value of a sparse vector is at position '
+                    'indices[k], not k: stored values are never enumerated '
+                    'and the ordinal used as a position.',
+})
+
+_KERNEL_PREP_OK = {'sort_indices', 'sum_duplicates'}
+
+
+def rule_kernel_input(repo, col):
+    from .cfg import CFG
+    rule = 'SB-KERNELINPUT'
+    q = 'Table.subsample'
+    if not repo.has_func(TABLE, q):
+        return
+    fn = repo.func(TABLE, q)
+    kern = [c for c in body_walk(fn) if isinstance(c, ast.Call) and
+            call_name(c) == 'subsample' and c.args and isinstance(
+            c.args[0], ast.Name)]
+    if not kern:
+        col.unknown(rule, TABLE, q, 'kernel', fn, 'kernel call not found')
+        return
+    for k, c in enumerate(kern):
+        m = c.args[0].id
+        cfg = CFG(fn)
+        knode = next((n for n in cfg.stmt_nodes() if n.kind == 'stmt' and
+                      any(x is c for x in ast.walk(n.stmt)) and
+                      not isinstance(n.stmt, (ast.If, ast.For, ast.While,
+                                              ast.Try, ast.With))), None)
+        touching = []
+        for n in cfg.stmt_nodes():
+            if n.kind != 'stmt' or n is knode or isinstance(
+                    n.stmt, (ast.If, ast.For, ast.While, ast.Try, ast.With)):
+                continue
+            st = n.stmt
+            writes = False
+            # stores to m.data / m.data[...] and in-place arithmetic
+            for x in ast.walk(st):
+                if isinstance(x, (ast.Assign, ast.AugAssign)):
+                    tg = x.targets if isinstance(x, ast.Assign) else [
+                        x.target]
+                    for t in tg:
+                        d = dotted(t.value) if isinstance(
+                            t, ast.Subscript) else dotted(t)
+                        if d in ('%s.data' % m,):
+                            writes = True
+                if isinstance(x, ast.Call):
+                    if any(kw.arg == 'out' and (dotted(kw.value) or ''
+                                                ).startswith(m + '.')
+                           for kw in x.keywords):
+                        writes = True
+                    if isinstance(x.func, ast.Attribute) and dotted(
+                            x.func.value) in (m, m + '.data') and \
+                            x.func.attr not in _KERNEL_PREP_OK and \
+                            x.func.attr in (
+                                'eliminate_zeros', 'fill', 'clip', 'round',
+                                'sort', 'resize', 'put', 'itemset',
+                                'setdiag', 'multiply', 'power', 'ceil',
+                                'floor', 'rint', 'trunc', 'prune'):
+                        writes = True
+            if writes and knode is not None and (
+                    cfg.path_avoiding(n, knode, set()) or False):
+                touching.append(st)
+        col.check(not touching, rule, TABLE, q, 'kernel-input#%d' % (k + 1),
+                  touching[0] if touching else c,
+                  'the counts reach the kernel unchanged',
+                  '`%s` rewrites the stored counts before the kernel draws '
+                  'from them: the draw is no longer made from the table\'s '
+                  'counts (each unit equally likely)'
+                  % (unparse(touching[0], 60) if touching else ''))
+
+
+def rule_cli_same_output(repo, col):
+    rule = 'AG-CLISAME'
+    rel = 'biom/cli/table_head.py'
+    q = 'head'
+    if not repo.has_func(rel, q):
+        return
+    fn = repo.func(rel, q)
+    echoed = [c.args[0] for c in body_walk(fn) if isinstance(c, ast.Call)
+              and (call_name(c) or '').endswith('echo') and c.args]
+    written = [c.args[0] for c in body_walk(fn) if isinstance(c, ast.Call)
+               and isinstance(c.func, ast.Attribute) and
+               c.func.attr == 'write' and c.args]
+    if not echoed or not written:
+        col.unknown(rule, rel, q, 'outputs', fn,
+                    'printed / written text not found')
+        return
+    same = {unparse(e, 200) for e in echoed} == {unparse(w, 200)
+                                                  for w in written}
+    col.check(same, rule, rel, q, 'same-text', written[0],
+              'the file receives what would be printed',
+              '`%s` is printed but `%s` is written to the file: with -o '
+              'the command writes something else than it shows'
+              % (unparse(echoed[0], 40), unparse(written[0], 40)))
+
+
+def rule_orient_first(repo, col):
+    rule = 'OR-ORIENTFIRST'
+    rel = 'biom/cli/table_summarizer.py'
+    q = '_summarize_table'
+    if not repo.has_func(rel, q):
+        return
+    fn = repo.func(rel, q)
+    from .cfg import CFG
+    cfg = CFG(fn)
+    orient = [n for n in cfg.stmt_nodes() if n.kind == 'stmt' and isinstance(
+        n.stmt, ast.Assign) and any(
+        isinstance(c, ast.Call) and isinstance(c.func, ast.Attribute) and
+        c.func.attr == 'transpose' for c in ast.walk(n.stmt.value))]
+    stats = [n for n in cfg.stmt_nodes() if n.kind == 'stmt' and not
+             isinstance(n.stmt, (ast.If, ast.For, ast.While, ast.Try,
+                                 ast.With)) and any(
+             isinstance(c, ast.Call) and (call_name(c) or '').split('.')[-1]
+             == 'compute_counts_per_sample_stats'
+             for c in ast.walk(n.stmt))]
+    if not orient or not stats:
+        col.unknown(rule, rel, q, 'shape', fn,
+                    'transpose / statistics call not found')
+        return
+    for k, s_ in enumerate(stats):
+        late = [o for o in orient if cfg.path_avoiding(s_, o, set())]
+        col.check(not late, rule, rel, q, 'stats-after-orient#%d' % (k + 1),
+                  s_.stmt, 'computed on the oriented table',
+                  'the statistics are computed before `%s`: with '
+                  '--observations the report shows per-sample figures '
+                  'under a header that describes observations'
+                  % (unparse(late[0].stmt, 50) if late else ''))
+
+
+def rule_convert_writes_asis(repo, col):
+    rule = 'TA-WRITEASIS'
+    rel = 'biom/cli/table_converter.py'
+    q = '_convert'
+    if not repo.has_func(rel, q):
+        return
+    fn = repo.func(rel, q)
+    n = 0
+    for c in body_walk(fn):
+        if isinstance(c, ast.Call) and isinstance(c.func, ast.Attribute) and \
+                c.func.attr == 'write' and c.args:
+            n += 1
+            a = c.args[0]
+            cut = [x for x in ast.walk(a) if isinstance(x, ast.Call) and
+                   isinstance(x.func, ast.Attribute) and x.func.attr in (
+                       'strip', 'rstrip', 'lstrip', 'splitlines',
+                       'expandtabs', 'removesuffix', 'replace')]
+            col.check(not cut, rule, rel, q, 'write@%d' % n, c,
+                      'the text is written as produced',
+                      '`%s` edits the text before writing it: a trailing '
+                      'tab (an empty last field) of the last line is lost '
+                      'and that line no longer parses back to the same '
+                      'row' % unparse(c, 50))
+    col.ok(rule, rel, q, 'scan', fn, '%d writes' % n)
+
+
+def rule_sparse_ordinal(repo, col, rels=(TABLE,)):
+    rule = 'TA-SPARSEPOS'
+    n = 0
+    for rel, q, fn in repo.all_functions():
+        if rel not in rels or isinstance(fn, ast.Lambda):
+            continue
+        for lp in body_walk(fn):
+            gens = []
+            if isinstance(lp, ast.For):
+                gens = [(lp.target, lp.iter, lp)]
+            elif isinstance(lp, (ast.ListComp, ast.GeneratorExp,
+                                 ast.DictComp, ast.SetComp)):
+                gens = [(g.target, g.iter, lp) for g in lp.generators]
+            for tgt, it, scope in gens:
+                if not (isinstance(it, ast.Call) and call_name(it) ==
+                        'enumerate' and it.args and isinstance(
+                        it.args[0], ast.Attribute) and
+                        it.args[0].attr == 'data' and isinstance(
+                        tgt, ast.Tuple) and isinstance(tgt.elts[0],
+                                                       ast.Name)):
+                    continue
+                owner = it.args[0].value
+                # only objects that also expose .indices in this function
+                # (a sparse vector), or whose .data is enumerated at all
+                n += 1
+                i = tgt.elts[0].id
+                used = [x for x in ast.walk(scope) if isinstance(
+                    x, ast.Subscript) and any(
+                    isinstance(y, ast.Name) and y.id == i
+                    for y in ast.walk(x.slice)) and dotted(
+                    x.value) != dotted(owner) + '.data' and dotted(
+                    x.value) != dotted(owner) + '.indices']
+                col.check(not used, rule, rel, q, 'ordinal-as-position',
+                          used[0] if used else it,
+                          'the ordinal only indexes the stored arrays',
+                          '`%s` uses the ordinal of a stored value of `%s` '
+                          'as a position: the k-th stored value sits at '
+                          'indices[k]' % (unparse(used[0], 50) if used
+                                          else '', unparse(owner, 30)))
+    col.ok(rule, TABLE, '<file>', 'scan', None,
+           '%d enumerations of stored values' % n)
